@@ -385,3 +385,53 @@ def rule_index_elem(prog):
     if n < 10:
         out.missing("index expressions in feature handlers (found %d)" % n)
     return out
+
+
+# ------------------------------------------------------------------ ONE-PER-ITEM
+
+def rule_one_per_item(prog):
+    """fold(): exactly one FoldingRange per procedure: the per-procedure `map` is 1:1 over a filter that keeps exactly the
+    Procedure variant, and nothing removes elements afterwards."""
+    out = Out("ONE-PER-ITEM")
+    c = prog.lsp
+    b = prog.body("lsp4spl::features::fold::fold")
+    if b is None:
+        out.missing("features::fold::fold")
+        return out
+    fm = [m for m in hir.nodes(b["body"], "MethodCall") if m["m"] == "filter_map"]
+    ok = False
+    if fm:
+        clo = hir.strip(fm[0]["args"][0]) if fm[0]["args"] else {}
+        kept = set()
+        for m in hir.nodes(clo, "Match"):
+            for arm in m["arms"]:
+                pv = hir.pat_variant(arm["pat"]) or ""
+                some = any(last(p["res"].get("ctor_of", "")) == "Some" for p in hir.nodes(arm["body"], "Path"))
+                if some and pv:
+                    kept.add(last(pv))
+        ok = kept == {"Procedure"}
+    out.add("features::fold::fold", "the filter keeps exactly the Procedure declarations", ok, c.loc(b["sp"]), "")
+    removing = ("dedup", "dedup_by", "dedup_by_key", "retain", "retain_mut", "truncate", "drain", "pop", "remove", "swap_remove",
+                "clear", "filter", "take", "skip", "step_by", "take_while", "skip_while", "split_off")
+    bad = [m for m in hir.nodes(b["body"], "MethodCall") if m["m"] in removing and
+           ("FoldingRange" in c.tstr(m["recv"]["t"]) or any("FoldingRange" in c.tstr(a["to"]) for a in m["recv"].get("adj") or []))]
+    # adaptors between the per-procedure map and collect
+    chain_bad = []
+    for m in hir.nodes(b["body"], "MethodCall"):
+        if m["m"] == "collect":
+            cur = hir.strip(m["recv"])
+            seen_map = False
+            while cur.get("k") == "MethodCall":
+                if cur["m"] == "map":
+                    seen_map = True
+                elif cur["m"] in ("filter_map",):
+                    break
+                elif cur["m"] in removing or cur["m"] in ("flat_map", "flatten", "chain", "zip"):
+                    chain_bad.append(cur)
+                cur = hir.strip(cur["recv"])
+    out.add("features::fold::fold", "no folding range is removed or merged after it was computed", not bad and not chain_bad,
+            c.loc((bad + chain_bad)[0]["sp"]) if (bad or chain_bad) else c.loc(b["sp"]),
+            "`%s` drops ranges: procedures that share a line with their neighbour lose their folding range" % ((bad + chain_bad)[0]["m"] if (bad or chain_bad) else ""))
+    fr = [s_ for s_ in hir.nodes(b["body"], "Struct") if (s_.get("adt") or "").endswith("FoldingRange")]
+    out.add("features::fold::fold", "one FoldingRange literal, built per procedure", len(fr) == 1, c.loc(b["sp"]), "found %d" % len(fr))
+    return out
